@@ -67,6 +67,10 @@ typedef struct {
   // For #line directive
   char *display_name;
   int line_delta;
+
+  // For #include_next: 1 + index of the include path in which this
+  // file was found, or 0 if it was not found through the include paths
+  int include_idx;
 } File;
 
 // Token type
